@@ -1462,7 +1462,8 @@ def _token_findings(fb, files):
                 if g is not None and g.recq == r.qname:
                     fns.append(g)
         gives_back = any(op["op"] in ("store", "rmw", "cas") for g in fns for op in atomic_ops(g)) or \
-            any(st["k"] == "CXXMemberCallExpr" and (st.get("callee") or {}).get("name") in ("unlock", "deallocate", "notify_all")
+            any(st["k"] == "CXXMemberCallExpr" and ((st.get("callee") or {}).get("name") in ("unlock", "deallocate", "notify_all") or
+                                                    ((st.get("callee") or {}).get("inrepo") and "unlock" in (st.get("callee") or {}).get("name", "")))
                 for g in fns for st in g.stmts.values())
         if not gives_back:
             continue
@@ -1477,7 +1478,8 @@ def _token_findings(fb, files):
         sticky = []
         for fl in r.fields:
             t = fl["type"]
-            raw = t.rstrip().endswith("*") or t in ("bool", "int", "unsigned int", "long", "unsigned long", "char", "short") or t.endswith("&")
+            raw = t.rstrip().endswith("*") or t in ("bool", "int", "unsigned int", "long", "unsigned long", "char", "short") or t.endswith("&") \
+                or t.replace("mutable ", "").startswith("std::optional<")       # a moved-from optional stays ENGAGED
             if raw and (fl["name"] in guards or not guards):
                 sticky.append(fl["name"])
         out.append((r, not sticky, sticky))
